@@ -49,6 +49,8 @@ _h('hist_small_vector_stl', 'h_hist', 'small_vector<int,3> over std::variant<utl
    cbmc_flags=HEAPF, unwind=10, mem_gb=6, kf=['KF_C19_STATIC_RESIZE_STALE'])
 _h('ctor', 'h_ctor', 'utl::vector(N) N in 0..6 and utl::vector(a,b,c), with --memory-leak-check', quick=[{}], cbmc_flags=LEAK, kf=['KF_C19_VECTOR_SIZED_CTOR_UNINIT'])
 _h('ctor_static', 'h_ctor_static', 'utl::static_vector<int,4>(N), N in 0..6', quick=[{}], kf=['KF_C19_STATIC_SIZED_CTOR_OVER_CAPACITY'])
+_h('copy_then_grow', 'h_copy_then_grow', 'utl::vector copy-constructed from a vector of NSRC elements, then NPUSH push_backs into the COPY (sizes are per-query constants: quick 5 pairs, thorough all of 0..5 x 0..3); all values symbolic; with --memory-leak-check',
+   quick=[{'NSRC': a, 'NPUSH': b} for a, b in ((1, 1), (3, 2), (4, 1), (5, 3), (2, 3))], thorough=[{'NSRC': a, 'NPUSH': b, '_mem_gb': 12} for a in range(6) for b in range(4)], cbmc_flags=LEAK, mem_gb=6)
 _h('copy_independent', 'h_copy_independent', 'utl::vector copy, then a write to the source at a symbolic index; size 1..6, all values symbolic; with --memory-leak-check', quick=[{}], cbmc_flags=LEAK)
 _h('array', 'h_array', 'utl::array<int,4>: K symbolic steps from {operator[] write, at() write, assign other, self-assign, copy-construct+assign} on two objects with symbolic initial contents', quick=[{'K': 4}], thorough=[{'K': 6}])
 _h('tuple', 'h_tuple', 'utl::tuple / utl::tuplev2 <int, unsigned char, size_t>: K symbolic steps from {get<0|1|2> write, assign other, self-assign, copy-construct+assign} on two objects', quick=[{'K': 3, 'TUPLEV': 1}, {'K': 3, 'TUPLEV': 2}], thorough=[{'K': 5, 'TUPLEV': 1}, {'K': 5, 'TUPLEV': 2}])
